@@ -474,6 +474,8 @@ fn comment_def<'a>(input: &mut &'a [u8]) -> ModalResult<Comment<'a>, InputError<
 
     // Take until newline or end of input - this is the actual comment content
     let line_content = take_while(0.., |c: u8| c != b'\n').parse_next(input)?;
+    // The carriage return of a CRLF line break is not part of the comment.
+    let line_content = line_content.strip_suffix(b"\r").unwrap_or(line_content);
     let comment_text = bytes_to_str(line_content);
 
     Ok(Comment::new(comment_text))
